@@ -9,7 +9,7 @@ VENDOR = ['/repo/test/c3dFiles/Vicon.c3d', '/repo/test/c3dFiles/Qualisys.c3d', '
 def run(rep, work, rng, tier):
     common.proof_part(rep, 'C02')
     shared = work.sub('shared')
-    n = 300 if tier == 'quick' else 8000
+    n = 300 if tier == 'quick' else 30000
     cases = []; exp = {}; layouts = {}; shapes = {}
     for i in range(n):
         L = filegen.make_layout(rng); c = filegen.make_content(rng)
